@@ -4,7 +4,7 @@ PROP = dict(
     engine='hypothesis-shim',
     technique='property-based testing (Hypothesis-generated cases run in an ASan-built shim, one process per case; independent Python decoders as oracle)',
     rule='Hypothesis cases executed by an ASan+UBSan shim, one process per case. Images: 6 writers (PPM, PGM, PFM float/vec3f/vec3fa/vec4f), '
-         'sizes 1..64 x 1..64 incl. single row/column and widths up to 1024, pixels copied into a heap block of exactly w*h*sizeof(pixel) bytes; '
+         'sizes 1..64 x 1..64 incl. single row/column, widths up to 1024 and very wide rows {2047..8193}, pixels copied into a heap block of exactly w*h*sizeof(pixel) bytes; '
          'oracle = independent Python decoder (header, payload length, selected channels, row order). Traces: 0..8 recording threads (optionally '
          'the main thread), balanced begin/end nesting <= 6 with optional unclosed tail, markers, counters, event counts from '
          '{0,1,2,17,0..60,8191,8192,8193,16385}, optional thread/process names; oracle = json.loads + per-thread sequence comparison. '
